@@ -16,7 +16,7 @@
 pub const FRAMES_MAX: usize = 64;
 pub const LOCALS_MAX: usize = u8::MAX as usize + 1;
 pub const UPVALUES_MAX: usize = u8::MAX as usize + 1;
-pub const JUMP_SIZE_MAX: usize = u16::MAX as usize + 1;
+pub const JUMP_SIZE_MAX: usize = u16::MAX as usize;
 pub const HEAP_INIT_BYTES_MAX: usize = 65536;
 pub const HEAP_GROWTH_FACTOR: usize = 2;
 pub const VEC_ELEMS_MAX: usize = isize::MAX as usize + 1;
